@@ -283,11 +283,13 @@ def run_C18(ctx):
 
 def cov_C18(ctx, agg):
     st = agg.stats
-    c = {"rule": "histograms from 11 families (all zero, single symbol, two symbols, uniform, powers of two up to 2^43, Fibonacci weights, counts near 2^44, sparse random, geometric, dense random, collected from data by each isal_update_histogram variant) x default/subset builder; distinct by hash of the histogram; non-trivial = table creation returned 0 and all monitors ran",
-         "explanation": "stored header parsed by the independent dynamic-header parser (Kraft completeness, exact bit length); the codes the encoder emits (lit_table, len_table, dist_table/dcodes through the encoder's own lookup helpers) for all 256 literals, all lengths 3..258 and distances of the window decoded by the reference; level-0 one-shot/streaming compression with flushes round-trips through reference and zlib under the CPU levels that select each level-0 kernel; install rules probed in many stream states; table switches at completed flush points",
+    c = {"rule": "histograms from 13 families (all zero, single symbol, two symbols, uniform, powers of two up to 2^43, Fibonacci weights, counts near 2^44, sparse random, geometric, dense random, multiples of 2^32, deep chains ending in a literal + a length symbol (285 or another) + far distance symbols, collected from data by each isal_update_histogram variant) x default/subset builder; distinct by hash of the histogram; non-trivial = table creation returned 0 and all monitors ran",
+         "explanation": "stored header parsed by the independent dynamic-header parser (Kraft completeness, exact bit length); the codes the encoder emits (lit_table, len_table, dist_table/dcodes through the encoder's own lookup helpers) for all 256 literals, all lengths 3..258 and distances of the window decoded by the reference; level-0 one-shot/streaming compression with flushes round-trips through reference and zlib under the CPU levels that select each level-0 kernel; install rules probed in many stream states; table switches at completed flush points; worst-case group workload: per table, data built so that the encoder must emit the literal with the longest code, the length with most code+extra bits and a far distance with most code+extra bits back to back at varying bit phases (the reference decoder reports the largest such group actually present in the produced streams)",
          "tables_whose_unconstrained_huffman_depth_exceeds_15": int(st.get("tables_needing_length_limiting", 0)), "subset_tables": int(st.get("subset_tables", 0)), "roundtrips": int(st.get("roundtrips", 0)),
          "symbols_decoded_through_packed_tables": int(st.get("symbols_decoded", 0)), "set_hufftables_refused": int(st.get("set_hufftables_refused", 0)), "set_hufftables_accepted": int(st.get("set_hufftables_accepted", 0)),
-         "cpu_levels_simulated": sorted(agg.sets.get("cpu_levels", []))}
+         "cpu_levels_simulated": sorted(agg.sets.get("cpu_levels", [])),
+         "worst_case_group_workloads": int(st.get("worst_case_group_workloads", 0)), "largest_literal_length_distance_group_bits_observed_in_a_stream": max([int(k) for k in agg.cnts.get("largest_group_bits_by_engine_process", {})] or [0]),
+         "streams_with_a_group_over_56_bits": int(st.get("streams_with_a_literal_length_distance_group_over_56_bits", 0))}
     for k in ("histogram_families", "histogram_collector_calls", "set_hufftables_states_probed"):
         c[k] = dict(sorted(agg.cnts.get(k, {}).items()))
     return c
@@ -419,7 +421,7 @@ PROPS = {
                 floors=lambda ctx, agg: ([] if agg.stats.get("overflow_resumes", 0) >= 500 else ["overflow resumes %d" % agg.stats.get("overflow_resumes", 0)]) + ([] if agg.stats.get("too_small_output_cases", 0) >= 500 else ["too-small cases"]) + ([] if agg.stats.get("chunked_reads", 0) >= 3000 else ["chunked reads"]),
                 assumptions=["FCHECK may be any value making CMF*256+FLG a multiple of 31 (0 or 31 when both fit)", "on overflow the caller re-supplies a larger buffer that keeps the bytes already copied (realloc semantics, as in the repository's own test)"]),
     "C18": dict(run=run_C18, level="exploration", coverage=cov_C18,
-                floors=lambda ctx, agg: ([] if agg.stats.get("tables_needing_length_limiting", 0) >= 200 else ["only %d tables needed length limiting" % agg.stats.get("tables_needing_length_limiting", 0)]) + ([] if agg.stats.get("roundtrips", 0) >= 2000 else ["roundtrips %d" % agg.stats.get("roundtrips", 0)]) + ([] if len(agg.cnts.get("set_hufftables_states_probed", {})) >= 4 else ["states probed %s" % agg.cnts.get("set_hufftables_states_probed", {})]),
+                floors=lambda ctx, agg: ([] if agg.stats.get("tables_needing_length_limiting", 0) >= 200 else ["only %d tables needed length limiting" % agg.stats.get("tables_needing_length_limiting", 0)]) + ([] if agg.stats.get("roundtrips", 0) >= 2000 else ["roundtrips %d" % agg.stats.get("roundtrips", 0)]) + ([] if agg.stats.get("worst_case_group_workloads", 0) >= 1500 else ["worst-case group workloads %d" % agg.stats.get("worst_case_group_workloads", 0)]) + ([] if len(agg.cnts.get("set_hufftables_states_probed", {})) >= 3 else ["states probed %s" % agg.cnts.get("set_hufftables_states_probed", {})]),
                 assumptions=["the encoder's per-symbol lookup is observed through the inline helpers of igzip/huffman.h (the same ones isal_deflate_body_base uses)", "subset tables are only used with data whose literals had non-zero counts"]),
     "C07": dict(
         run=run_C07, level="exploration",
